@@ -209,9 +209,12 @@ class SqlalchemyRender:
 
             method = methods.get(op)
             if method is not None:
-                sa_op = getattr(arg0, method)
-
-                col = sa_op(arg1)
+                if op == '/':
+                    # sqlalchemy's __truediv__ turns integer division into true division
+                    # (sqlite: a / (b + 0.0), postgres: a / CAST(b AS NUMERIC)); keep the operator as written
+                    col = arg0.op('/', precedence=8)(arg1)
+                else:
+                    col = getattr(arg0, method)(arg1)
                 # sqlalchemy negates is_()/is_not() to themselves unless the operand is None:
                 # NOT (a IS NULL) would be rendered as a IS NULL
                 if op == 'is':
